@@ -505,3 +505,18 @@ Theorem newline_record_refuted :
   let h := [OSeqWrite p_em w_mode [[97; 10; 98]%N]] in
   seq_read (run_fs empty_fs h) p_em = FOk [[97%N]; [98%N]].
 Proof. vm_compute. reflexivity. Qed.
+
+Example ex_parent_and_name :
+  routed p_em = true /\ rsplit p_em = Some ([47; 109; 101; 109; 47; 101]%N, [109%N]) /\
+  components p_em = components [47; 109; 101; 109; 47; 101]%N ++ name_part [109%N].
+Proof. vm_compute. repeat split. Qed.
+Example ex_removed :
+  trace_of empty_fs [OSave p_mjson [49%N]; ORm p_mjson; ORead p_em] =
+    [(OSave p_mjson [49%N], RUnit)] ++ (ORm p_mjson, RUnit) :: [(ORead p_em, RErr FNotFound)] /\
+  rm_target p_mjson = components p_mjson /\
+  (forall x, In x [(ORead p_em, RErr FNotFound)] -> ~ touches (fst x) (components p_mjson)).
+Proof. split; [reflexivity|]. split; [reflexivity|]. intros x [E|[]]. subst x. simpl. tauto. Qed.
+Example ex_read_your_writes :
+  afold (file_at empty_fs) (trace_of empty_fs ex_hist) (components p_mjson) = Some [51%N] /\
+  afold (file_at empty_fs) (trace_of empty_fs ex_hist) (components p_em) = None.
+Proof. vm_compute. split; reflexivity. Qed.
